@@ -609,10 +609,11 @@ PROPS = {
                               "names below them, a delegation point that also holds an A record and is written in upper case, names that "
                               "create empty non-terminals below the apex and below a name that owns records, names outside the zone; both "
                               "DNSKEY settings; NSEC3 owner labels compared with an independent iterated SHA-1 / Base32hex computation) through generate_nsecs and "
-                              "generate_nsec3s (no opt-out): against an independent declarative description -- one NSEC per owner name in "
+                              "generate_nsec3s (without opt-out, with opt-out excluding the insecure delegations, with the opt-out flag only): against an independent declarative description -- one NSEC per owner name in "
                               "the zone not below a delegation point, canonical order, next pointers closing at the apex, exact bitmaps, TTL "
                               "and class; one NSEC3 per such name and per empty non-terminal, sorted by hash, next hashed owner closing the "
-                              "ring, no NSEC bit, empty bitmap exactly at empty non-terminals, parent-side types at delegations -- on the real crate"},
+                              "ring, no NSEC bit, empty bitmap exactly at empty non-terminals, parent-side types at delegations, the opt-out flag on every record exactly when "
+                              "configured, and under exclusion no NSEC3 for an insecure delegation nor for an empty non-terminal that exists only because of it -- on the real crate"},
         "kani": [],
         "explanation": "the NSEC chain: dnssec::sign::denial::nsec::generate_nsecs (real text, both loops with invariants, no bound on the "
                        "zone) returns, for the sorted owner names it is given, exactly one NSEC per name that is in the zone and not below a "
@@ -624,8 +625,7 @@ PROPS = {
                        "dead. Canonical order of the input is the subject of C04; the bitmap encoding of C05. NSEC3 chains and the NSEC "
                        "chain on concrete zones: the native search.",
         "not_covered": "NSEC3 generation (generate_nsec3s: hashing with ring, empty non-terminal discovery, opt-out, collision handling, "
-                       "1400 lines of iterator and sorter code) is outside the contracts and only sampled by the native search (bounded, no "
-                       "opt-out); that the scan over sorted names equals the declarative 'not below any delegation point' (needs the "
+                       "1400 lines of iterator and sorter code) is outside the contracts and only sampled by the native search (bounded; three opt-out modes); that the scan over sorted names equals the declarative 'not below any delegation point' (needs the "
                        "subtree-contiguity of the canonical order) is checked by the native search only; NSEC3PARAM placement; the "
                        "record iterators (RecordsIter, OwnerRrs, Rrset: SliceRefsOrOwned) are modelled, not verified.",
         "assumptions": [
